@@ -103,6 +103,31 @@ pub fn apply(base: &Base, ops: &[Value]) -> Vec<u8> {
                     lines[i].push(0xFF);
                 }
             }
+            "key" => {
+                // the key of a header line rewritten: brackets out of order, doubled, missing, empty
+                let i = idx("line");
+                if i < lines.len() {
+                    let (k, v) = split_kv(&lines[i]);
+                    let ks = String::from_utf8_lossy(&k).to_string();
+                    let (name, sub) = match (ks.find('['), ks.rfind(']')) {
+                        (Some(a), Some(b)) if a < b => (ks[..a].to_string(), ks[a + 1..b].to_string()),
+                        _ => (ks.clone(), "X".to_string()),
+                    };
+                    let nk = match vs(&op["how"]) {
+                        "swap" => format!("{}]{}[", name, sub),
+                        "only" => "][".to_string(),
+                        "open" => format!("{}[{}", name, sub),
+                        "close" => format!("{}{}]", name, sub),
+                        "dopen" => format!("{}[[{}]", name, sub),
+                        "dclose" => format!("{}[{}]]", name, sub),
+                        "empty" => format!("{}[]", name),
+                        "noname" => format!("[{}]", sub),
+                        "late" => format!("{}]{}[{}]", name, sub, sub),
+                        _ => format!("{}[{}]x", name, sub),
+                    };
+                    lines[i] = [nk.into_bytes(), vec![b':'], v].concat();
+                }
+            }
             "mbchar" => {
                 // a valid multi-byte UTF-8 character (U+FF11 FULLWIDTH DIGIT ONE, 3 bytes; U+00E9, 2 bytes) at a place
                 // where the header grammar expects an ASCII digit, boolean, colon or name
